@@ -62,6 +62,7 @@ def main():
     finally:
         sh('git -C /repo worktree remove --force %s' % wt)
         shutil.rmtree(wt, ignore_errors=True)
+        shutil.rmtree(os.path.join('/tmp', 'verif-trial-' + os.path.basename(wt)), ignore_errors=True)
     ok = res.get('demo_unchanged_exit') == 0 and res.get('demo_changed_exit') not in (0, None) and '187 passed' in res.get('tests_with_change', '')
     res['confirmed'] = ok
     print(json.dumps(res, indent=1))
